@@ -300,6 +300,7 @@ def check(ctx: Any, sc: dict[str, Any], out: dict[str, Any]) -> None:
     wi = 0
     data_before_ack = False
     undelivered_during_ack = False
+    used_acks: set[int] = set()
     for o in out["ops"]:
         ts, te, res = o["ts"], o["te"], o["res"]
         if closed_at is not None:
@@ -318,7 +319,7 @@ def check(ctx: Any, sc: dict[str, Any], out: dict[str, Any]) -> None:
             # first matching ack within the ack time
             match = None
             for gi, (t, f, l) in enumerate(gfr):
-                if t <= ts or t > ts + ACK_TIME + TOL:
+                if gi in used_acks or t < ts - TOL or t > ts + ACK_TIME + TOL:
                     continue
                 pt = struct.unpack("!H", f[2:4])[0]
                 if pt in (0x8002, 0x8003):
@@ -326,8 +327,14 @@ def check(ctx: Any, sc: dict[str, Any], out: dict[str, Any]) -> None:
                     prev = f[13:]
                     if sa == tgt and ta == src and (len(prev) == 0 or prev == data[: len(prev)]):
                         match = (t, pt, code, gi)
+                        used_acks.add(gi)
                         break
             limit = ts + ACK_TIME
+            if match is not None and match[0] > limit - TOL:
+                ctx.reach("write.ack-at-deadline")
+                if res[0] != "ok":
+                    closed_at = te
+                continue
             if match is not None and any(ts < a < match[0] for a, _ in our):
                 data_before_ack = True
                 ctx.reach("data-before-ack")
